@@ -17,6 +17,7 @@ concrete witness valuation found by bounded enumeration of the *index model*
 (no code of the repository is executed).
 """
 import ast
+import copy
 from .affine import Aff, Ranges, to_aff, prove_nonneg, prove_le, lower_bound, find_witness
 from .model import dotted_name, norm, walk_no_nested
 
@@ -277,7 +278,48 @@ class KernelAnalysis:
     # ---------------------------------------------------------------- blocks
     def block(self, body):
         for i, st in enumerate(body):
+            split = self._split_ifexp(st)
+            if split is not None and getattr(self, '_ifexp_depth', 0) < 4:
+                # `x = A if c else B; rest`  ==  `if c: x = A; rest  else: x = B; rest` - the branch analysis
+                # (refinement of loop variables, control-dependence check) then applies to the conditional value
+                test, st_a, st_b = split
+                node = ast.If(test=test, body=[st_a] + list(body[i + 1:]), orelse=[st_b] + list(body[i + 1:]))
+                ast.copy_location(node, st)
+                self._ifexp_depth = getattr(self, '_ifexp_depth', 0) + 1
+                try:
+                    self.stmt(node)
+                finally:
+                    self._ifexp_depth -= 1
+                return
             self.stmt(st)
+
+    @staticmethod
+    def _split_ifexp(st):
+        if not isinstance(st, (ast.Assign, ast.AugAssign, ast.Expr, ast.Return)):
+            return None
+        found = []
+
+        def find(n):
+            for c in ast.iter_child_nodes(n):
+                if found:
+                    return
+                if isinstance(c, (ast.Lambda, ast.ListComp, ast.GeneratorExp, ast.SetComp, ast.DictComp)):
+                    continue
+                if isinstance(c, ast.IfExp):
+                    found.append(c)
+                    return
+                find(c)
+        find(st)
+        if not found:
+            return None
+        target = found[0]
+
+        out = []
+        for arm in (target.body, target.orelse):
+            # deep copy with the chosen arm in place of the conditional expression
+            memo = {id(target): arm}
+            out.append(copy.deepcopy(st, memo))
+        return target.test, out[0], out[1]
 
     def stmt(self, st):
         asg = set()
@@ -530,6 +572,9 @@ class KernelAnalysis:
         self.block(st.body)
         self.branch.pop()
         del self.cons[ncons:]
+        env_body = dict(self.aff_env)
+        if eqv is not None:
+            env_body[eqv[0]] = saved_env.get(eqv[0])
         self.ranges, self.aff_env = saved_r, dict(saved_env)
         temps1 = dict(self.temps)
         asg1 = [set(c['assigned']) for c in self.order_ctx]
@@ -547,7 +592,13 @@ class KernelAnalysis:
         self.block(st.orelse)
         self.branch.pop()
         del self.cons[ncons:]
-        self.ranges, self.aff_env = saved_r, saved_env
+        env_else = dict(self.aff_env)
+        # bindings made identically on both branches (e.g. `D, P, N = v_data.shape` / `D, P, M, N = v_data.shape`) survive
+        merged = dict(saved_env)
+        for k, v in env_body.items():
+            if v is not None and k in env_else and env_else[k] == v:
+                merged[k] = v
+        self.ranges, self.aff_env = saved_r, merged
         for c, a, a0 in zip(self.order_ctx, asg1, asg0):
             both = c['assigned'] & a
             if cmpv is not None and cmpv[1] is not None:
@@ -687,6 +738,8 @@ class KernelAnalysis:
                 t = self.temps[n.id]
                 return Val(t.kind, t.w, t.reads, t.factors, posvar=t.posvar, length=t.length, why=t.why)
             a = to_aff(n, self.aff_env)
+            if a is not None and n.id in self.aff_env and a.is_const and a.c == 0:
+                return Val('w', ANY)        # a name bound to the integer 0: the zero of every weight
             fac = [a] if (a is not None and (self.ranges.get(n.id) is not None or n.id in self.aff_env)) else []
             return Val.scalar(factors=fac)
         if isinstance(n, ast.Attribute):
